@@ -1100,9 +1100,14 @@ impl Model {
                                 cur = parent(&c);
                             }
                             al
-                        } else if okk && (into || src_text.is_none()) {
-                            // the macro reads dst itself: with a directory destination or binary
-                            // data its verdict is not pinned down by the statement
+                        } else if okk && into && src_text.is_some() {
+                            // the copy landed inside dst, dst itself is still a directory: "dst is
+                            // a file holding the source's content" is false and nothing else was
+                            // verified - passing here would be vacuous
+                            alt(Expect::PanicWith(vec![mname.clone()]), Next::State(Box::new(t)))
+                        } else if okk && src_text.is_none() {
+                            // the macro compares through read_all: with data that is not text its
+                            // verdict is not pinned down by the statement
                             alt(Expect::Any, Next::State(Box::new(t)))
                         } else {
                             alt(Expect::PanicWith(vec![mname.clone()]), Next::State(Box::new(t)))
